@@ -214,7 +214,7 @@ func VH_C13_RemoveStyling() {
 				rmask = choose(4)
 			}
 			for r := 0; r < nr; r++ {
-				li := LineItem{Text: []string{"x", "y"}[r]}
+				li := LineItem{Text: []string{"x", "y"}[r], StartAt: time.Duration(1000 + r)} // a run-level (inline) timestamp is timing, not styling
 				if (rmask>>uint(r))&1 != 0 {
 					li.Style = st
 				} else {
@@ -236,6 +236,7 @@ func VH_C13_RemoveStyling() {
 	for i, sn := range snaps {
 		it := s.Items[i]
 		vassert(it == sn.p && it.StartAt == sn.st && it.EndAt == sn.en, "C13 RemoveStyling: timing and order untouched")
+		vassert(it.Index == i+1 && len(it.Comments) == 1 && it.Comments[0] == "c", "C13 RemoveStyling: index and comments untouched")
 		vassert(it.Style == nil && it.Region == nil && it.InlineStyle == nil, "C13 RemoveStyling: cue styling removed")
 		vassert(len(it.Lines) == len(sn.lines), "C13 RemoveStyling: line count")
 		for l, sl := range sn.lines {
@@ -243,6 +244,7 @@ func VH_C13_RemoveStyling() {
 			for r, tx := range sl.texts {
 				li := it.Lines[l].Items[r]
 				vassert(li.Text == tx, "C13 RemoveStyling: text untouched")
+				vassert(li.StartAt == time.Duration(1000+r), "C13 RemoveStyling: run timing untouched")
 				vassert(li.Style == nil && li.InlineStyle == nil, "C13 RemoveStyling: run styling removed")
 			}
 		}
